@@ -26,9 +26,9 @@ def S(xs):
     return "= {" + ", ".join(json.dumps(x) if isinstance(x, str) else str(x) for x in xs) + "}"
 
 
-def parrun_consts(NN=4, MaxW=3, srcs=("vec", "iterx"), terms=("collect_vec",), nts=(2, 3), css="Cs_1_2", fans="Fans_012", crashes="NoCrash"):
+def parrun_consts(NN=4, MaxW=3, srcs=("vec", "iterx"), terms=("collect_vec",), nts=(2, 3), css="Cs_1_2", fans="Fans_012", crashes="NoCrash", kinds=("flat",)):
     return {"MaxW": f"= {MaxW}", "Avail": "= 16", "NN": f"= {NN}", "Srcs": S(srcs), "Terms": S(terms),
-            "Nts": S(nts), "Css": f"<- {css}", "Fans": f"<- {fans}", "Crashes": f"<- {crashes}"}
+            "Nts": S(nts), "Css": f"<- {css}", "Fans": f"<- {fans}", "Crashes": f"<- {crashes}", "Kinds": S(kinds)}
 
 
 # per property: list of (name, module, consts, invariants, temporal properties)
@@ -132,7 +132,7 @@ GEN_FAMILIES = {
     "C07": [(("collect_x",), ("vec",), (3,), "Cs_2", "Fans_012", 4, 3), (("collect_x",), ("iterx",), (2,), "Cs_1_2", "Fans_012", 3, 2)],
     "C08": [(("count", "find"), ("vec",), (2, 3), "Cs_1_2", "Fans_find", 4, 3), (("count",), ("vec",), (6,), "Cs_1_2", "Fans_1", 7, 6)],
     "C10": [(("find",), ("vec", "iterx"), (2, 3), "Cs_1_2", "Fans_find", 4, 3), (("find",), ("vec",), (6,), "Cs_min_auto", "Fans_find", 7, 6)],
-    "C11": [(("collect_vec", "count"), ("vec", "iterx"), (3,), "Cs_1_2_3", "Fans_012", 4, 3), (("count",), ("vec",), (6,), "Cs_1_2", "Fans_1", 7, 6)],
+    "C11": [(("collect_vec", "count", "reduce", "find"), ("vec", "iter"), (3,), "Cs_1_2_3", "Fans_012", 5, 3), (("count",), ("vec",), (6,), "Cs_1_2", "Fans_1", 7, 6)],
     "C13": [(("collect_vec", "find"), ("vec",), (2, 3), "Cs_1_2", "Fans_find", 3, 3)],
     "C15": [(("collect_vec", "count"), ("vec",), (2, 3), "Cs_min_auto", "Fans_012", 4, 3), (("count",), ("vec",), (6,), "Cs_min_auto", "Fans_1", 8, 6)],
     "C14": [(("collect_vec", "count", "find"), ("vec", "iterx"), (2, 3), "Cs_1_2", "Fans_012", 4, 3, "CrashStage1")],
@@ -154,9 +154,13 @@ def generated_jobs(prop, tier, seed, work):
     for fi, fam in enumerate(fams):
         (terms, srcs, nts, css, fans, NN, W) = fam[:7]
         crashes = fam[7] if len(fam) > 7 else "NoCrash"
+        # the replayed programs cover the kernel families: flat_map, filter_map and map+filter kernels
+        kinds = ("flat", "fmap", "filter") if fans in ("Fans_012", "Fans_find", "Fans_01") else ("flat",)
+        if kinds != ("flat",) and fans == "Fans_012":
+            pass
         cfgp = os.path.join(work, f"gen-{fi}.cfg")
         with open(cfgp, "w") as f:
-            f.write(cfg_text("GSpec", parrun_consts(NN, W, srcs, terms, nts, css, fans, crashes), ["Emit"]))
+            f.write(cfg_text("GSpec", parrun_consts(NN, W, srcs, terms, nts, css, fans, crashes, kinds), ["Emit"]))
         num = (want // len(fams)) * 3
         rc, out, dt = tlc("Gen_ParRun.tla", cfgp, work, workers=1, timeout=900,
                           extra=["-simulate", f"num={num}", "-depth", "200", "-seed", str(seed)], deque=False)
